@@ -44,6 +44,29 @@ class Hooks(object):
 RET, BRK, CNT = 'ret', 'break', 'continue'
 
 
+def _positional_form(fnode, args, kw):
+    """a recorded call in canonical form: keyword arguments that name the
+    next positional parameters become positional (`f(a, y=b)` and `f(a, b)`
+    are the same call of `def f(x, y)`)"""
+    if not kw or not isinstance(fnode, (ast.FunctionDef, ast.Lambda)):
+        return args, kw
+    a = fnode.args
+    if a.vararg is not None or a.posonlyargs:
+        return args, kw
+    names = [x.arg for x in a.args]
+    args = list(args)
+    kw = list(kw)
+    if any(k is None for k, _ in kw):
+        return args, kw
+    while len(args) < len(names):
+        nm = names[len(args)]
+        hit = [i for i, (k, _) in enumerate(kw) if k == nm]
+        if len(hit) != 1:
+            break
+        args.append(kw.pop(hit[0])[1])
+    return args, kw
+
+
 class Interp(BuiltinsMixin):
     def __init__(self, prog, hooks=None, max_depth=8, max_paths=4000,
                  rule='E3'):
@@ -1189,6 +1212,7 @@ class Interp(BuiltinsMixin):
                 sum(1 for f in self.stack if f.node is fnode) >= getattr(
                     self.hooks, 'max_self_recursion', 2) or \
                 not (forced or self.hooks.inline(self, fi, args)):
+            args, kw = _positional_form(fnode, args, kw)
             v = App('call', fref, Tup(args), Tup(Tup((Const(k), a))
                                                   for k, a in kw))
             self.event(path, 'call', fref, None, (args, kw), node)
